@@ -37,6 +37,14 @@ fn relate<K: Fam>(a: &Enr<K>, sa: &Snap, b: &Enr<K>, sb: &Snap, st: &mut Stats) 
     if eq != (b == a) {
         return Err("equality is not symmetric".into());
     }
+    // `!=` is the negation of `==`, and containers built on element comparison agree
+    #[allow(clippy::nonminimal_bool)]
+    if (a != b) == eq || (b != a) == eq {
+        return Err(format!("a != b is {} while a == b is {eq}", a != b));
+    }
+    if (vec![a.clone()] == vec![b.clone()]) != eq || ((a.clone(), 1u8) != (b.clone(), 1u8)) == eq || (Some(a) == Some(b)) != eq {
+        return Err(format!("Vec / tuple / Option comparison of the two records disagrees with a == b ({eq})"));
+    }
     let same_id = sa.seq == sb.seq && sa.pk == sb.pk && sa.sig == sb.sig;
     if eq != same_id {
         return Err(format!(
@@ -301,7 +309,7 @@ impl Property for C15 {
             FamId::Ed => transitivity::<crate::keys::EdKey>(&v)?,
             FamId::CombinedSecp | FamId::CombinedEd => transitivity::<crate::keys::CombKey>(&v)?,
             FamId::Var | FamId::Wide => transitivity::<crate::keys::VarKey>(&v)?,
-            FamId::Tiny | FamId::Mid | FamId::Nano | FamId::Big | FamId::Clash => transitivity::<crate::keys::TinyKey>(&v)?,
+            FamId::Tiny | FamId::Mid | FamId::Nano | FamId::Big | FamId::Clash | FamId::Null => transitivity::<crate::keys::TinyKey>(&v)?,
         }
         let nt = v.nontrivial;
         drop(v);
